@@ -2,7 +2,7 @@
    BasicContiguousVector (vector.hpp:127-151, 291-297, 471-538) on top of Vector.v,
    scripts and observations.  Definitions only. *)
 From Coq Require Import ZArith List Bool.
-From Cntgs Require Import Base Layout Mem Vector.
+From Cntgs Require Import Base Layout Mem Vector Proxy.
 Import ListNotations.
 Local Open Scope Z_scope.
 
@@ -33,6 +33,8 @@ Inductive op :=
 | OpMoveAssign (d s : nat)
 | OpSwap (a b : nat)
 | OpJunk (b : Z)
+| OpCmpVec (a b : nat)                 (* all six operators between two vectors *)
+| OpCmpRef (a : nat) (i : Z) (b : nat) (j : Z)   (* ... between element references a[i], b[j] *)
 | OpObserve (s : nat).
 
 (* what one element looks like from outside: its offset and, per field, the field's
@@ -43,6 +45,7 @@ Inductive obs :=
 | OStep (n : nat)                                  (* start of step n *)
 | OEv (e : ev)
 | ORes (r : Z)                                     (* returned index / boolean *)
+| OCmp (r : list bool)                             (* == != < <= > >= *)
 | ONull (s : nat) (size : Z)                       (* vector without memory: size() only *)
 | OVec (s : nat) (size cap consumption aid : Z) (bid : nat) (dbeg dend : Z) (fixed : list Z)
        (elems : list oelem)
@@ -254,6 +257,8 @@ Definition step (K : akind) (L : list param) (w : world) (o : op) : world :=
         let w1 := setv (setv w a (Some va) [] nb) b (Some vb) [] nb in
         emit w1 [obs_vec L a w1; obs_vec L b w1]
   | OpJunk b => set_junk w b
+  | OpCmpVec a b => emit w [OCmp (cmp_vecs L (getv w a) (getv w b))]
+  | OpCmpRef a i b j => emit w [OCmp (cmp_refs L (getv w a) i (getv w b) j)]
   | OpObserve s => emit w [obs_vec L s w]
   end.
 
